@@ -254,14 +254,17 @@ func moreC14(r *Run) {
 			ok, _ := HasAtom(P.Guards(c, 0), `^\(0 == param:req\.Height\)$`)
 			r.Check(ok, "C14-R6", "getHeight/default-only-when-unset", P.InstrPos(c), "the latest version is consulted only when req.Height == 0", "getHeight consults the latest version under {"+strings.Join(atomStrings(P.Guards(c, 0)), " ; ")+"}: a non-zero requested height can be replaced")
 		}
-		for _, ret := range Returns(f) {
-			if phi, ok := ret.Results[0].(*ssa.Phi); ok {
-				r.phiSelectedWhen("C14-R6", "getHeight/explicit-height-kept", phi, `^param:req\.Height$`, `^!\(0 == param:req\.Height\)$`)
-			} else {
-				t := P.TermAt(ret.Results[0], ret).String()
-				r.Check(t == "param:req.Height", "C14-R6", "getHeight/explicit-height-kept", P.InstrPos(ret), t, "getHeight returns "+t)
+		kept := false
+		for _, a := range P.RetAlternatives(f, 0) {
+			t := a.T.String()
+			if t == "param:req.Height" {
+				kept = true
+				continue
 			}
+			ok, _ := HasAtom(a.G, `^\(0 == param:req\.Height\)$`)
+			r.Check(ok, "C14-R6", "getHeight/explicit-height-kept", P.InstrPos(a.Ret), t+" only when req.Height == 0", "getHeight returns "+t+" under {"+strings.Join(atomStrings(a.G), " ; ")+"}: an explicit height can be replaced")
 		}
+		r.Check(kept, "C14-R6", "getHeight/explicit-height-returned", P.Pos(f.Pos()), "req.Height is one of the returned alternatives", "getHeight never returns req.Height")
 	}
 }
 
